@@ -968,7 +968,17 @@ func SynthBoundary(r *Rng) ([]byte, []byte, string) {
 	o := SynthOpts{Tight: true}
 	// the block that ends at the boundary
 	toks := s.randTokens(m+delta, false, false)
-	switch r.Intn(4) {
+	pat := r.Intn(6)
+	if pat >= 4 {
+		// literals filling the window exactly, then one or two more literals and a match right behind them:
+		// a packed [literal.., length] table entry meets the window edge
+		extra := 1 + r.Intn(2)
+		toks = s.randTokens(m+extra, false, false)
+		toks = append(toks, tok{length: r.Pick([]int{3, 4, 5, 10, 258}), dist: 1 + r.Intn(min(len(s.out)+m, 300))})
+		toks = append(toks, s.randTokens(r.Intn(20), false, false)...)
+		delta = extra
+	}
+	switch pat {
 	case 0: // end with a match that crosses the boundary
 		if len(toks) > 6 {
 			toks = toks[:len(toks)-5]
